@@ -40,9 +40,23 @@ def sevJson : SEv → Json
   | .process k s => ofList [Json.str "process", ofNat k, schemaJson s]
   | .onCancel k => ofList [Json.str "on_cancel", ofNat k]
 
+def cop (j : Json) : R COp := do
+  match (← arr j) with
+  | [.str "log", l] => do pure (.log (← Engine.Driver.log l))
+  | [.str "emit", b] => do pure (.emit (← Engine.Driver.batch b))
+  | [.str "finish"] => pure .finish
+  | [.str "raise", e] => do pure (.raise (← Engine.Driver.exn e))
+  | _ => throw s!"bad collector op {j.compress}"
+
+/-- a step is svcgen's {logs, act, post} or an ordered list of collector calls {"ops": [...]} (normalised) -/
+def stepOf (pm : Bool) (j : Json) : R Step :=
+  match fieldOpt j "ops" with
+  | some o => do pure (normalize pm (← (← arr o).mapM cop))
+  | none => Engine.Driver.step j
+
 def method (j : Json) : R Method := do
   let decl ← match fieldOpt j "decl" with | some d => schema d | none => pure []
-  let st ← Engine.Driver.steps j
+  let st ← (← arrF j "steps").mapM (stepOf decl.isEmpty)
   let hdr ← match fieldOpt j "header" with | some h => do pure (some (← nat h)) | none => pure none
   let il ← Engine.Driver.logs j "init_logs"
   let init ← match fieldOpt j "init" with | some e => do pure (some (← Engine.Driver.exn e)) | none => pure none
